@@ -115,10 +115,12 @@ PROPS = {
     ),
     'C12': dict(
         contract_files=['contracts/client.py'],
-        level='bounded',
-        trusted_base=COMMON_TRUSTED,
-        uncovered=['end-to-end mirroring of the node cache over a connection (reader thread, reconnect, describe changes): whole-history'
-                   ' property over two processes / threads - no sequential contract; only the callback dispatch is evaluated (bounded)'],
+        level='proof',
+        trusted_base=COMMON_TRUSTED + ['ProxyClient.callback abstract in the proof of updateValue (records the call, does not raise); CacheItem abstract'],
+        uncovered=['the receive loop (reader thread), reconnects, description changes, write / read / command paths: end-to-end mirroring over a'
+                   ' connection is a whole-history property over two processes / threads - no sequential contract',
+                   'ProxyClient.callback itself: bounded stand-in only (containers are modelled by value: iteration over a list that is'
+                   ' mutated meanwhile is indistinguishable from iteration over a snapshot)'],
         bounded=[CB('client-contracts', 'contracts/client.py', 'gens_client')],
     ),
     'C16': dict(
